@@ -1,6 +1,7 @@
 package harness
 
 import (
+	"verif.sim/simrt/simnet"
 	"bytes"
 	"context"
 	"encoding/xml"
@@ -249,6 +250,10 @@ func c09Mux(rc *RC, e *E2, ns string) (xmpp.Handler, *ibb.Handler, *history.Hand
 			for _, j := range []string{"x@y.example", "z.example", "q@y.example/r"} {
 				c <- jid.MustParse(j)
 			}
+			// some accounts block a lot: the reply takes more than one write of the session's buffered encoder
+			for i := 0; i < c09LongList; i++ {
+				c <- jid.MustParse(fmt.Sprintf("spammer-number-%04d@a-rather-long-domain-name-%d.example", i, i%7))
+			}
 		}}),
 		version.Handle(version.Query{Name: "n", Version: "1", OS: "os"}),
 		xtime.Handle(xtime.Handler{}),
@@ -280,11 +285,24 @@ func runC09(rc *RC) {
 	}
 }
 
+// c09LongList: how many more entries the application's block list has in this run.
+var c09LongList int
+
 func c09Handlers(rc *RC) {
 	ch := rc.Ch
 	e := rc.NewE2(E2Opts{})
 	if e == nil {
 		return
+	}
+	c09LongList = 0
+	if ch.Chance("workload", 1, 5) {
+		c09LongList = ch.Range("workload", 40, 200)
+	}
+	// in a sixth of the runs the peer goes away for good while the session answers it: from the k-th write on the
+	// connection refuses everything (the input may go on for a while; it ends in any case)
+	if ch.Chance("faults", 1, 6) {
+		e.SUT.WriteErrAt, e.SUT.WriteErr, e.SUT.WritePartial, e.SUT.WriteErrOnce = e.SUT.Writes+ch.Range("faults", 1, 12), simnet.ErrReset, ch.Int("faults", 60), false
+		rc.Fire("peer-gone-plan")
 	}
 	m, ih, _, _, mc := c09Mux(rc, e, e.NS)
 	echo := ch.Chance("workload", 1, 2)
